@@ -1,5 +1,6 @@
 import Imdlv.Model.Verifier
 import Imdlv.Model.Digest
+import Imdlv.Model.Paths
 namespace Driver.C03
 open Imdlv Imdlv.Verifier
 
@@ -70,6 +71,29 @@ def handle (args : List String) : String :=
           let errs := s.errors.map fun (pth, e) => joinWith "," (pth.map hexOrDash) ++ ":" ++ errKind e
           s!"ok {if s.good then 1 else 0} {if s.piecesOk then 1 else 0} {if errs.isEmpty then "-" else joinWith ";" errs}"
     | _, _, _ => "bad-op"
+  -- path algebra (`~` = option absent, `-` = empty text)
+  | ["pnorm", p] =>
+    match bytesOfHex p with
+    | some p => "ok " ++ hexOrDash (Paths.render (Paths.comps p))
+    | none => "bad-op"
+  | ["resolve", cwd, p] =>
+    match bytesOfHex cwd, bytesOfHex p with
+    | some cwd, some p => "ok " ++ hexOrDash (Paths.render (Paths.resolve (Paths.comps cwd) (Paths.comps p)))
+    | _, _ => "bad-op"
+  | ["contentroot", c, b, t, name] =>
+    let opt (s : String) : Option (Option Paths.CPath) :=
+      if s = "~" then some none else (bytesOfHex s).map (fun x => some (Paths.comps x))
+    match opt c, opt b, opt t, bytesOfHex name with
+    | some c, some b, some t, some name =>
+      "ok " ++ hexOrDash (Paths.render (Paths.contentRoot c b t (Paths.comps name)))
+    | _, _, _, _ => "bad-op"
+  | ["torrentpath", cwd, input] =>
+    match bytesOfHex cwd, bytesOfHex input with
+    | some cwd, some input =>
+      (match Paths.createDefaultOutput (Paths.comps cwd) (Paths.comps input) with
+       | some out => "ok " ++ hexOrDash (Paths.render out)
+       | none => "none")
+    | _, _ => "bad-op"
   | ["leaves", p] =>
     match parsePath p with
     | some p => s!"ok {if leavesRoot p then 1 else 0}"
